@@ -26,7 +26,7 @@ func init() {
 		Rule: "base programs with a mark at every position where the grammar permits a line break; every mark x 3 padding kinds (blank lines, one long comment line, mixed spaces/tabs/comment/blank lines) x sizes {0..8} U [1016,1032] U [2040,2056] U {3000,4095,4096,4097,5000,8192} U {2^k-1, 2^k, 2^k+1 : 16 KiB <= 2^k <= 128 KiB (thorough 1 MiB)} " +
 			"(thorough: every size 0..4200 at three positions, +-64 windows elsewhere) and all marks at once; 7 token kinds (string, raw string, embedded-string piece, comment, identifier, symbol, int) x the same lengths; " +
 			"whole programs of <=4 padding lines (comment, blank, spaces, indented comment, bare #) around nothing or around one statement at every position, with and without a line break after the last line; " +
-			"reader chunkings: constant chunk sizes {1,2,3,5,7,64,1023,1024,1025,2047,2048,2049} and every schedule with <=1 (thorough 2) short reads among the first 6 reads, on programs of 0.5-5 KiB; oracle: AST string equals the unpadded/unchunked parse with the token text intact; " +
+			"reader chunkings: constant chunk sizes {1,2,3,5,7,64,1023,1024,1025,2047,2048,2049} and every schedule with <=1 (thorough 2) short reads among the first 6 reads, on programs of 0.5-5 KiB, and readers that deliver their last bytes together with io.EOF and/or return (0, nil) once (7 chunk sizes x 7 variants); oracle: AST string equals the unpadded/unchunked parse with the token text intact; " +
 			"two more padding kinds put the padding on the line itself (k spaces/tabs after the break = the next token starts in column k+1; k spaces/tabs before the break), sizes around 256, 1 KiB, 2 KiB, 4 KiB, 8 KiB at every mark; for paddings <= 8 KiB the padded program is also evaluated and must print and return what the unpadded one does (3 base programs show the order of keyword arguments, keyword defaults and pairs); " +
 			"script files with LF / CRLF / CR line breaks, a raw string spanning lines, a comment and padding of 0..8 KiB are run by the real binary; " +
 			"non-trivial = padding/length >= 1000 bytes or a chunked read; distinct = distinct (program, position, kind, size) / (program, schedule); round 8: Every bracketed construct is also compared with its one-line spelling (AST and evaluation; incl. calls and literals made of expansions only); four programs are entered in the REPL's multi-line mode with blanks of 0..4096 bytes at line ends and on lines of their own.",
@@ -85,6 +85,10 @@ type tcase struct {
 	Src    string `json:"src,omitempty"`    // lines mode: the whole source
 	Chunks []int  `json:"chunks,omitempty"` // read sizes; after the list everything that is asked for
 	Const  int    `json:"const,omitempty"`
+	// how the reader ends and stalls (both allowed by the io.Reader contract): Eof 1 = the last bytes are delivered together
+	// with io.EOF; Empty k>0 = the k-th read returns (0, nil) once
+	Eof   int `json:"eof,omitempty"`
+	Empty int `json:"empty,omitempty"`
 }
 
 func padding(kind string, k int) string {
@@ -102,7 +106,10 @@ func padding(kind string, k int) string {
 	case "special": // comment text made of characters that mean something elsewhere in the grammar
 		var sb strings.Builder
 		sb.WriteString("\n")
-		texts := []string{"# |@ not a chain |.p", "# x := \"unterminated { [ ( `", "# }> ]) }} ' ?c \\ \\1", "# |", "#|$", "# a | b || c |& d", "# #{ } #", "# if else return yield defer raise"}
+		texts := []string{"# |@ not a chain |.p", "# x := \"unterminated { [ ( `", "# }> ]) }} ' ?c \\ \\1", "# |", "#|$", "# a | b || c |& d", "# #{ } #", "# if else return yield defer raise",
+			// line comments that look like the ends and the starts of block comments of other languages (closers first: a
+			// reader that took an opener for a block start would run on into the next padding, across the code between)
+			"# end of banner ]#", "# *# =# -# |# }# ># )# #]", "#]", "#[1] step", "#[ config ]####", "#[", "#* #= #- #| #{ #< #(", "#!/usr/bin/env pangaea", "#=begin", "#--[[", "#<<EOF"}
 		i := 0
 		for sb.Len() < k || i < len(texts) {
 			sb.WriteString(texts[i%len(texts)] + "\n")
@@ -273,11 +280,17 @@ type chunkReader struct {
 	sched  []int
 	konst  int
 	nreads int
+	eof    int
+	empty  int
 }
 
 func (r *chunkReader) Read(p []byte) (int, error) {
 	if len(r.data) == 0 {
 		return 0, io.EOF
+	}
+	if r.empty > 0 && r.nreads+1 == r.empty {
+		r.nreads++
+		return 0, nil
 	}
 	n := len(p)
 	if r.konst > 0 && n > r.konst {
@@ -292,6 +305,9 @@ func (r *chunkReader) Read(p []byte) (int, error) {
 	}
 	copy(p, r.data[:n])
 	r.data = r.data[n:]
+	if r.eof == 1 && len(r.data) == 0 {
+		return n, io.EOF
+	}
 	return n, nil
 }
 
@@ -406,6 +422,14 @@ func gen(thorough bool, emit func(tcase)) {
 	for pi := range progs {
 		for _, cs := range []int{1, 2, 3, 5, 7, 64, 1023, 1024, 1025, 2047, 2048, 2049} {
 			emit(tcase{Mode: "chunk", Base: pi, Const: cs})
+		}
+		// the end of the input delivered together with the last bytes; one read that returns nothing
+		for _, cs := range []int{0, 1, 7, 64, 1024, 2048, 32768} {
+			emit(tcase{Mode: "chunk", Base: pi, Const: cs, Eof: 1})
+			for k := 1; k <= 3; k++ {
+				emit(tcase{Mode: "chunk", Base: pi, Const: cs, Empty: k})
+				emit(tcase{Mode: "chunk", Base: pi, Const: cs, Empty: k, Eof: 1})
+			}
 		}
 		// deviation-bounded: short reads among the first 6 reads
 		short := []int{1, 2, 1000, 2047}
@@ -634,9 +658,9 @@ func check(c *core.Ctx, t tcase) {
 			return
 		}
 		c.Nontrivial(1)
-		got, e := parseReader(&chunkReader{data: []byte(src), sched: t.Chunks, konst: t.Const})
+		got, e := parseReader(&chunkReader{data: []byte(src), sched: t.Chunks, konst: t.Const, eof: t.Eof, empty: t.Empty})
 		// determinism of the harness: the same schedule twice
-		got2, e2 := parseReader(&chunkReader{data: []byte(src), sched: t.Chunks, konst: t.Const})
+		got2, e2 := parseReader(&chunkReader{data: []byte(src), sched: t.Chunks, konst: t.Const, eof: t.Eof, empty: t.Empty})
 		if got != got2 || e != e2 {
 			c.HarnessError("chunked parse is not reproducible for %+v", t)
 			return
@@ -647,11 +671,16 @@ func check(c *core.Ctx, t tcase) {
 			if t.Const > 0 {
 				key = "chunking/constant-chunk-size"
 			}
+			if t.Eof > 0 {
+				key = "chunking/last-bytes-delivered-with-eof"
+			} else if t.Empty > 0 {
+				key = "chunking/a-read-that-returns-nothing"
+			}
 			g := got
 			if len(g) > 150 {
 				g = g[:150] + "..."
 			}
-			viol(key, fmt.Sprintf("program %d (%d bytes) read with const=%d schedule=%v", t.Base, len(src), t.Const, t.Chunks), "same AST as one read", g+e, "")
+			viol(key, fmt.Sprintf("program %d (%d bytes) read with const=%d schedule=%v", t.Base, len(src), t.Const, t.Chunks), "same AST as one read", g+e+fmt.Sprintf(" (eof=%d empty=%d)", t.Eof, t.Empty), "")
 		}
 	}
 }
